@@ -36,11 +36,18 @@ pub fn run(ctx: &Ctx) {
     }
     run.space(&ws_class(), &all, false);
     run.space(&mid_bom(t.pick(3, 4)), &all, false);
+    // size thresholds (long names, texts, blank runs, bodies, nesting, counts) under every configuration
+    run.space(&stretch("S.stretch", STRETCH_READER, t.pick(20, 70), t.pick(10, 16), t.pick(4, 7)), &all, false);
     // the same metamorphic relation on the buffered reader (option handling that lives in the
     // source: skip_whitespace for trim_text_start, buffer reuse), under three chunkings
     for piece in [1usize, 2, 3] {
         run.script = Some(crate::env::Script::pieces(piece));
         run.space(&raw(&format!("A.raw_x_cfg.buffered(piece={})", piece), SIGMA_M, t.pick(5, 6)), &all, false);
         run.space(&atoms(&format!("C.atoms_x_cfg.buffered(piece={})", piece), ATOMS_C, t.pick(3, 4)), &all, false);
+    }
+    let sixteen: Vec<u8> = (0..128u8).filter(|c| c & (crate::trace::CHECK_COMMENTS | crate::trace::ALLOW_UNMATCHED | crate::trace::CHECK_END_NAMES) == crate::trace::ALLOW_UNMATCHED).collect();
+    for piece in [7usize, 64] {
+        run.script = Some(crate::env::Script::pieces(piece));
+        run.space(&stretch(&format!("S.stretch.buffered(piece={})", piece), STRETCH_READER, t.pick(12, 40), t.pick(9, 13), t.pick(3, 6)), &sixteen, false);
     }
 }
